@@ -265,6 +265,13 @@ func c20(x *ctx) {
 		{Name: "each", Arguments: []gen.CfgArg{}, ReturnType: ret("Self"), BlockParameters: []string{"String"}},
 	}
 	cmethods := []gen.CfgMethod{{Name: "new", Arguments: []gen.CfgArg{{Type: []string{"Int"}}}, ReturnType: ret("Self")}, {Name: "zork", Arguments: []gen.CfgArg{}, ReturnType: ret("Int")}}
+	var props, ivars []gen.CfgProp
+	for i, n := range []string{"missing", "missing_attr", "nothing", "zork", "nope", "capacity", "after", "name", "value", "port", "level", "balance", "owner", "hidden", "move", "rest"} {
+		props = append(props, gen.CfgProp{Name: n, Type: []string{[]string{"Int", "String"}[i%2]}, Access: []string{"reader", "accessor"}[i%2]})
+	}
+	for i, n := range []string{"v", "w", "q", "x", "raw", "level", "name", "r", "z", "balance", "owner"} {
+		ivars = append(ivars, gen.CfgProp{Name: n, Type: []string{[]string{"Int", "String", "Float"}[i%3]}})
+	}
 	extras := []struct {
 		name string
 		cls  gen.CfgClass
@@ -275,12 +282,16 @@ func c20(x *ctx) {
 		{"namespaced", gen.CfgClass{Frame: "Builtin", Class: "Xns::Zzq", InstanceMethods: methods, ClassMethods: cmethods}},
 		{"frame-nested", gen.CfgClass{Frame: "Xfr::Inner", Class: "Zzq", InstanceMethods: methods, ClassMethods: cmethods,
 			Constants: []gen.CfgConst{{Name: "ZZQ_CONST", ReturnType: ret("Int")}}}},
+		// instance properties / instance variables named like methods and variables the programs use on their own
+		// classes (also as undefined calls and unassigned reads)
+		{"frame-props", gen.CfgClass{Frame: "Xfr", Class: "Zzq", InstanceMethods: methods, ClassMethods: cmethods, InstanceProperties: props, InstanceVariables: ivars}},
+		{"builtin-props", gen.CfgClass{Frame: "Builtin", Class: "Zzq", InstanceMethods: methods, ClassMethods: cmethods, InstanceProperties: props, InstanceVariables: ivars}},
 	}
 	type variant struct{ cfg, desc string }
 	var fixed []variant
 	for _, e := range extras {
 		for _, pos := range []string{"zzz", "000"} {
-			if !thorough && pos == "000" && e.name != "builtin-fresh" {
+			if !thorough && pos == "000" && e.name != "builtin-fresh" && !strings.HasSuffix(e.name, "-props") {
 				continue
 			}
 			name := "extra-" + e.name + "-" + pos
@@ -288,6 +299,36 @@ func c20(x *ctx) {
 			cfgFiles[name] = files
 			x.pool.NewCfgDir(name, files)
 			fixed = append(fixed, variant{name, fmt.Sprintf("extra class %s::%s (%s) loaded %s", e.cls.Frame, e.cls.Class, e.name, map[string]string{"zzz": "last", "000": "first"}[pos])})
+		}
+	}
+	// classes of a foreign frame that reuse the short names of configured classes and redeclare their most
+	// common methods with other parameter lists (loaded first and last)
+	{
+		u := gen.CfgArg{Type: []string{"Untyped"}}
+		shadow := func(cls string, names ...string) gen.CfgClass {
+			c := gen.CfgClass{Frame: "Xfr", Class: cls, ClassMethods: []gen.CfgMethod{{Name: "new", Arguments: []gen.CfgArg{u, u, u}, ReturnType: ret("Self")}}}
+			for _, n := range names {
+				c.InstanceMethods = append(c.InstanceMethods, gen.CfgMethod{Name: n, Arguments: []gen.CfgArg{u, u, u}, ReturnType: ret("Symbol")})
+			}
+			return c
+		}
+		shadows := map[string]gen.CfgClass{
+			"string":  shadow("String", "length", "upcase", "to_s", "+", "split", "size"),
+			"array":   shadow("Array", "first", "push", "length", "size", "each", "to_s"),
+			"integer": shadow("Integer", "to_s", "+", "zero?", "times"),
+			"hash":    shadow("Hash", "keys", "size", "each", "merge"),
+			"object":  shadow("Object", "to_s", "inspect", "nil?", "is_a?"),
+		}
+		for _, pos := range []string{"zzz", "000"} {
+			extra := map[string]string{}
+			for n, c := range shadows {
+				extra[pos+"_shadow_"+n+".json"] = c.JSON()
+			}
+			name := "extra-shadows-configured-" + pos
+			files := gen.Merge(shipped, extra)
+			cfgFiles[name] = files
+			x.pool.NewCfgDir(name, files)
+			fixed = append(fixed, variant{name, "classes Xfr::String/Array/Integer/Hash/Object redeclaring common methods with three parameters, loaded " + map[string]string{"zzz": "last", "000": "first"}[pos]})
 		}
 	}
 	progs := progSet(x)
